@@ -171,6 +171,7 @@ Fixpoint zip_check (tc : tce) (l1 l2 : list smember) : res bool :=
   | m1 :: r1, m2 :: r2 =>
     if negb (sm_id m1 =? sm_id m2) then Ok false
     else if negb (tc_ign_names tc) && negb (sm_name m1 =? sm_name m2) then Ok false
+    else if negb (Bool.eqb (sm_optional m1) (sm_optional m2)) then Ok false   (* 05c4a3c *)
     else b <- tid_assignable tc (sm_tid m1) (sm_tid m2) ;;
          if b then zip_check tc r1 r2 else Ok false
   | _, _ => Ok true
@@ -333,6 +334,41 @@ Definition projects (t1 : adesc) (v d : dyn) : bool :=
   forallb (member_agrees v d) (ad_members t1) &&
   forallb (fun k => mem k (aids (ad_members t1))) (keys d).
 
+(* the same with nested structures projected member by member (used by the oracle on nested
+   evolution; on the flat family it coincides with `projects`) *)
+Fixpoint val_projects (t : ty) (x y : val) {struct t} : bool :=
+  match t with
+  | TStruct _ ms =>
+    match x, y with
+    | VData xd, VData yd =>
+      forallb (fun k => mem k (ids ms)) (keys yd) &&
+      (fix go (ms : list (minfo * ty)) : bool :=
+         match ms with
+         | [] => true
+         | (m, t') :: r =>
+           (match lookup (m_id m) xd, lookup (m_id m) yd with
+            | Some a, Some b => val_projects t' a b
+            | Some _, None => false
+            | None, None => true
+            | None, Some b => match default_val t' with Some z => val_eqb b z | None => false end
+            end) && go r
+         end) ms
+    | _, _ => false
+    end
+  | _ => val_eqb x y
+  end.
+Definition member_agrees_n (v d : dyn) (m : amember) : bool :=
+  match lookup (am_id m) v, lookup (am_id m) d with
+  | Some x, Some y => val_projects (ty_of_aty (am_ty m)) x y
+  | Some _, None => false
+  | None, None => true
+  | None, Some y =>
+    match default_val (ty_of_aty (am_ty m)) with Some z => val_eqb y z | None => false end
+  end.
+Definition projects_n (t1 : adesc) (v d : dyn) : bool :=
+  forallb (member_agrees_n v d) (ad_members t1) &&
+  forallb (fun k => mem k (aids (ad_members t1))) (keys d).
+
 (* strings whose encoded member fits the 32-bit length fields with its length prefix *)
 Definition small_val (x : val) : bool :=
   match x with
@@ -358,6 +394,10 @@ Definition aty_accepts (tc : tce) (a b : aty) : bool :=
 Definition same_member (tc : tce) (a b : amember) : bool :=
   (am_id a =? am_id b) && (tc_ign_names tc || (am_name a =? am_name b)) &&
   aty_accepts tc (am_ty a) (am_ty b).
+(* positional correspondence (FINAL / APPENDABLE): additionally the same optionality, because an
+   optional member is preceded by a presence flag / parameter header *)
+Definition same_member_pos (tc : tce) (a b : amember) : bool :=
+  same_member tc a b && Bool.eqb (m_opt (am_info a)) (m_opt (am_info b)).
 Definition extra_ok (m : amember) : bool :=
   negb (m_key (am_info m)) && negb (m_mu (am_info m) && negb (m_opt (am_info m))).
 Definition anames (ms : list amember) : list Z := map am_name ms.
@@ -382,10 +422,10 @@ Definition by_id_rules (tc : tce) (ms1 ms2 : list amember) : bool :=
 Definition evolves (tc : tce) (t1 t2 : adesc) : bool :=
   let ms1 := ad_members t1 in let ms2 := ad_members t2 in
   match ad_ext t1, ad_ext t2 with
-  | Final, Final => forall2b (same_member tc) ms1 ms2
+  | Final, Final => forall2b (same_member_pos tc) ms1 ms2
   | Appendable, Appendable =>
     let k := Nat.min (length ms1) (length ms2) in
-    forall2b (same_member tc) (firstn k ms1) (firstn k ms2) && by_id_rules tc ms1 ms2
+    forall2b (same_member_pos tc) (firstn k ms1) (firstn k ms2) && by_id_rules tc ms1 ms2
   | Mutable, Mutable => by_id_rules tc ms1 ms2
   | _, _ => false
   end.
